@@ -53,51 +53,25 @@ Proof.
   intros E. injection E as E. vm_compute in E. discriminate.
 Qed.
 
-(* every option that is set is marshalled *)
-Definition gated_ok (s : schema) (o : ospec) : bool :=
-  match o_mc o with
-  | MGatedBy _ => String.eqb (s_name s) "Welcome" && String.eqb (o_key o) "authmethod"
-  | _ => true
-  end.
+(* every option that is set is marshalled: no option of any class is conditional on another attribute
+   (the one exception, Welcome.authmethod under `if self.authrole`, was repaired by a9cc81d8) *)
+Definition not_gated (o : ospec) : bool := match o_mc o with MGatedBy _ => false | _ => true end.
 
-Lemma only_welcome_authmethod_gated :
-  forallb (fun s => forallb (gated_ok s) (s_opts s)) schemas = true.
+Lemma no_option_gated : forallb (fun s => forallb not_gated (s_opts s)) schemas = true.
 Proof. vm_compute. reflexivity. Qed.
 
-Theorem fields_preserved_partial : forall custom_ok, custom_law custom_ok ->
+Theorem fields_preserved_all : forall custom_ok, custom_law custom_ok ->
   forall s m i o v, In s schemas -> shape_ok custom_ok s m = true ->
   nth_error (s_opts s) i = Some o -> nth_error (m_opts m) i = Some v ->
-  (s_name s, o_key o) <> ("Welcome"%string, "authmethod"%string) ->
   own_holds o v = true ->
   dget (s2l (o_key o)) (marshal_dict s m) = Some v.
 Proof.
-  intros custom_ok H s m i o v Hin Hs Ho Hv Hne Hown.
+  intros custom_ok H s m i o v Hin Hs Ho Hv Hown.
   eapply option_marshalled; eauto. apply wf_all; auto.
-  pose proof only_welcome_authmethod_gated as G. rewrite forallb_forall in G. specialize (G s Hin).
+  pose proof no_option_gated as G. rewrite forallb_forall in G. specialize (G s Hin).
   rewrite forallb_forall in G. specialize (G o (nth_error_In _ _ Ho)).
-  unfold gated_ok in G. unfold holds. unfold own_holds in Hown.
-  destruct (o_mc o); auto.
-  apply andb_true_iff in G. destruct G as [G1 G2]. apply String.eqb_eq in G1. apply String.eqb_eq in G2.
-  exfalso. apply Hne. rewrite G1, G2. reflexivity.
-Qed.
-
-(* Welcome(authmethod="ticket") without authrole: the option is set but not marshalled *)
-Definition welcome_authmethod_only : msg :=
-  {| m_pos := [VInt 1];
-     m_opts := [VNull; VNull; VNull; VStr (s2l "ticket"); VNull; VNull; VNull; VNull; VNull];
-     m_pl := null_pl;
-     m_roles := [(KS (s2l "broker"), map (fun _ => VNull) (snd (nth 0 welcome_roles ("", []))))];
-     m_custom := [] |}.
-
-Theorem fields_preserved_refuted : forall custom_ok,
-  exists s m i o v, In s schemas /\ shape_ok custom_ok s m = true
-    /\ nth_error (s_opts s) i = Some o /\ nth_error (m_opts m) i = Some v
-    /\ own_holds o v = true /\ dget (s2l (o_key o)) (marshal_dict s m) = None.
-Proof.
-  intros custom_ok. exists Welcome, welcome_authmethod_only, 3%nat.
-  eexists. eexists. split; [simpl; auto|].
-  split; [vm_compute; reflexivity|]. split; [reflexivity|]. split; [reflexivity|].
-  split; vm_compute; reflexivity.
+  unfold not_gated in G. unfold holds. unfold own_holds in Hown.
+  destruct (o_mc o); auto. discriminate.
 Qed.
 
 (* the documented payload-transparency triple: written exactly when a non-empty payload is present *)
@@ -138,9 +112,13 @@ Proof.
   - injection H as <-. exists r; auto.
 Qed.
 
-(* EVENT with forward_for = [1]: the validator loop lets it through, the constructor assertion fires *)
-Definition event_ff_witness : value :=
-  VList [VInt 36; VInt 1; VInt 2; VDict [(KS (s2l "forward_for"), VList [VInt 1])]].
+(* EVENT with an opaque payload and enc_key but no enc_algo: every check of parse() passes, the constructor
+   assertion `(enc_algo is None and enc_key is None and ...) or (payload is not None and enc_algo is not None)` fires *)
+Definition event_enc_key_witness : value :=
+  VList [VInt 36; VInt 1; VInt 2; VDict [(KS (s2l "enc_key"), VStr (s2l "k"))]; VBytes [120%N]].
+(* UNSUBSCRIBED with request <> 0 and a subscription detail: constructor assertion *)
+Definition unsubscribed_combo_witness : value :=
+  VList [VInt 35; VInt 5; VDict [(KS (s2l "subscription"), VInt 7)]].
 (* HELLO whose caller features contain the key "self" *)
 Definition hello_self_witness : value :=
   VList [VInt 1; VNull;
@@ -148,28 +126,55 @@ Definition hello_self_witness : value :=
                  VDict [(KS (s2l "caller"), VDict [(KS (s2l "features"), VDict [(KS (s2l "self"), VBool true)])])])]].
 
 Theorem total_refuted : forall uri_ok custom_ok,
-  unserialize1 uri_ok custom_ok event_ff_witness = Raise AssertionError
+  unserialize1 uri_ok custom_ok event_enc_key_witness = Raise AssertionError
+  /\ unserialize1 uri_ok custom_ok unsubscribed_combo_witness = Raise AssertionError
   /\ unserialize1 uri_ok custom_ok hello_self_witness = Raise TypeError.
+Proof. intros. repeat split; vm_compute; reflexivity. Qed.
+
+(* repaired by ea2362f8: a malformed forward_for is a ProtocolError in every class, Unregister included *)
+Definition event_ff_witness : value :=
+  VList [VInt 36; VInt 1; VInt 2; VDict [(KS (s2l "forward_for"), VList [VInt 1])]].
+Definition unregister_ff_value : value :=
+  VList [VInt 66; VInt 1; VInt 2; VDict [(KS (s2l "forward_for"), VList [VInt 1; VInt 2])]].
+Theorem forward_for_repaired : forall uri_ok custom_ok,
+  unserialize1 uri_ok custom_ok event_ff_witness = Raise ProtocolError
+  /\ unserialize1 uri_ok custom_ok unregister_ff_value = Raise ProtocolError.
 Proof. intros. split; vm_compute; reflexivity. Qed.
+
+(* what the repaired validator guarantees of an accepted forward_for option *)
+Lemma ff_loop_ok : forall l, ff_loop_broke l = false -> forallb ff_entry_passes l = true.
+Proof.
+  induction l as [|x l IH]; simpl; intros H; auto.
+  destruct (ff_entry_passes x); [simpl; auto | discriminate].
+Qed.
+Theorem forward_for_entries : forall uri_ok x,
+  okind_check uri_ok OFwd x = None -> exists l, x = VList l /\ forallb ff_entry_passes l = true.
+Proof.
+  intros uri_ok x H. simpl in H. destruct x; simpl in H; try discriminate.
+  exists l. split; auto. apply ff_loop_ok. destruct (ff_loop_broke l); [discriminate|reflexivity].
+Qed.
 
 (* accepted although a session id inside the details is out of range / a forward_for entry is malformed *)
 Definition event_publisher_witness : list value :=
   [VInt 36; VInt 1; VInt 2; VDict [(KS (s2l "publisher"), VInt (-5))]].
-Definition unregister_ff_witness : list value :=
-  [VInt 66; VInt 1; VInt 2; VDict [(KS (s2l "forward_for"), VList [VInt 1; VInt 2])]].
+Definition cancel_ff_session_witness : list value :=
+  [VInt 49; VInt 1;
+   VDict [(KS (s2l "forward_for"),
+           VList [VDict [(KS (s2l "session"), VInt (-1)); (KS (s2l "authid"), VNull); (KS (s2l "authrole"), VStr (s2l "r"))]])]].
 
 Theorem strict_refuted : forall uri_ok custom_ok,
   (exists m o x, parse uri_ok custom_ok Event event_publisher_witness = Ok m
       /\ In o (s_opts Event) /\ dget (s2l (o_key o)) (find_opts (s_slots Event) (tl event_publisher_witness)) = Some x
       /\ strict_okind_ok uri_ok (o_kind o) x = false)
-  /\ (exists m o x, parse uri_ok custom_ok Unregister unregister_ff_witness = Ok m
-      /\ In o (s_opts Unregister) /\ dget (s2l (o_key o)) (find_opts (s_slots Unregister) (tl unregister_ff_witness)) = Some x
+  /\ (exists m o x, parse uri_ok custom_ok Cancel cancel_ff_session_witness = Ok m
+      /\ In o (s_opts Cancel) /\ dget (s2l (o_key o)) (find_opts (s_slots Cancel) (tl cancel_ff_session_witness)) = Some x
       /\ strict_okind_ok uri_ok (o_kind o) x = false).
 Proof.
   intros. split.
   - eexists. exists (o_nn "publisher" OInt), (VInt (-5)). split; [vm_compute; reflexivity|].
     split; [simpl; auto|]. split; vm_compute; reflexivity.
-  - eexists. exists (opt "forward_for" "forward_for" OFwd MTruthy CNone), (VList [VInt 1; VInt 2]).
+  - eexists. exists o_fwd,
+      (VList [VDict [(KS (s2l "session"), VInt (-1)); (KS (s2l "authid"), VNull); (KS (s2l "authrole"), VStr (s2l "r"))]]).
     split; [vm_compute; reflexivity|]. split; [simpl; auto|]. split; vm_compute; reflexivity.
 Qed.
 
